@@ -16,6 +16,7 @@ type modSet struct {
 	heap   map[string]bool // heap keys
 	ghost  map[string]bool
 	all    bool // unknown callee: all heap + ghost
+	heapPtrAll bool // some *p location: all ptr.* heaps
 }
 
 func newModSet() *modSet {
@@ -181,7 +182,7 @@ func (c *FnCtx) modClause(m Clause, ms *modSet) {
 	case *ast.SelectorExpr:
 		ms.heap["*."+x.Sel.Name] = true
 	case *ast.StarExpr:
-		ms.all = true
+		ms.heapPtrAll = true
 	default:
 		ms.all = true
 	}
@@ -221,6 +222,13 @@ func (c *FnCtx) havoc(st *State, ms *modSet, hint string) {
 			c.havocGhost(st, g)
 		}
 		return
+	}
+	if ms.heapPtrAll {
+		for k := range st.heap {
+			if strings.HasPrefix(k, "ptr.") {
+				c.havocHeapKey(st, k)
+			}
+		}
 	}
 	for k := range ms.heap {
 		if len(k) > 2 && k[:2] == "*." {
